@@ -142,8 +142,49 @@ class UnitTok(Model):
     def __hash__(self):
         return hash(self.name)
 
+    def mono(self):
+        """{base unit: exponent}: names of the form a*b/c are parsed, anything else is an atomic unit"""
+        if isinstance(self.name, tuple) and self.name and self.name[0] == "mono":
+            return dict(self.name[1])
+        if self.name in ("dimensionless", "", None):
+            return {}
+        if isinstance(self.name, str) and all(ch.isalnum() or ch in "_*/ " for ch in self.name):
+            out, sign, cur = {}, 1, ""
+            for ch in self.name + "*":
+                if ch in "*/":
+                    if cur.strip():
+                        out[cur.strip()] = out.get(cur.strip(), 0) + sign
+                    sign = -1 if ch == "/" else (sign if False else 1) if ch == "*" else sign
+                    cur = ""
+                else:
+                    cur += ch
+            return {k: v for k, v in out.items() if v}
+        return {self.name: 1}
+
+    @staticmethod
+    def from_mono(d):
+        d = {k: v for k, v in d.items() if v}
+        if not d:
+            return UnitTok("dimensionless")
+        if len(d) == 1 and next(iter(d.values())) == 1:
+            return UnitTok(next(iter(d)))
+        return UnitTok(("mono", tuple(sorted(d.items(), key=repr))))
+
     def __mul__(self, o):
+        if isinstance(o, UnitTok):
+            d = self.mono()
+            for k, v in o.mono().items():
+                d[k] = d.get(k, 0) + v
+            return UnitTok.from_mono(d)
         return UnitTok(("*", self.name, getattr(o, "name", o)))
+
+    def __truediv__(self, o):
+        if isinstance(o, UnitTok):
+            d = self.mono()
+            for k, v in o.mono().items():
+                d[k] = d.get(k, 0) - v
+            return UnitTok.from_mono(d)
+        return UnitTok(("/", self.name, getattr(o, "name", o)))
 
     def __repr__(self):
         return "Unit(%r)" % (self.name,)
@@ -290,12 +331,27 @@ def operand_origin(o):
     return o
 
 
+def op_unit(op, lu, ru):
+    """unit of the result of an Array operator, as established for core/array.py by C02/C07/C10"""
+    ru = ru if isinstance(ru, UnitTok) else None
+    if op in ("__mul__", "__rmul__", "__imul__"):
+        return lu * ru if ru is not None else lu
+    if op in ("__truediv__", "__itruediv__"):
+        return lu / ru if ru is not None else lu
+    if op == "__rtruediv__":
+        return (ru if ru is not None else UnitTok("dimensionless")) / lu
+    if op in ("__lt__", "__le__", "__gt__", "__ge__", "__eq__", "__ne__", "__and__", "__or__", "__xor__", "__invert__", "logical_not"):
+        return UnitTok("dimensionless")
+    if op in ("__pow__", "reciprocal", "sqrt"):
+        return UnitTok(("unit-of", op, lu.name, getattr(ru, "name", None)))
+    return lu          # sums, differences, negation, abs, min, max, selections keep the unit of the left operand
+
+
 class OpTok(ArrTok):
     """Result of an Array operator: an Array whose origin records (op, left, right)."""
 
     def __init__(self, op, left, right):
-        super().__init__(("op", op, left.origin, operand_origin(right)),
-                         UnitTok(("unit-of", op, left.unit.name, getattr(getattr(right, "unit", None), "name", None))), left.shape, "")
+        super().__init__(("op", op, left.origin, operand_origin(right)), op_unit(op, left.unit, getattr(right, "unit", None)), left.shape, "")
 
 
 class NdTok(Model):
